@@ -15,7 +15,7 @@ LOCK_ASSUME = [
 
 
 def recorded_entries(kind="seqs"):
-    resp, _ = core.ask(core.ORACLE, ["locks " + kind])
+    resp, _ = core.ask(core.ORACLE_HOOKS, ["locks " + kind])
     out = {}
     if resp and not resp[0].startswith("extract-error") and resp[0] != "bad-request":
         for part in resp[0].split(";"):
@@ -76,7 +76,7 @@ class _C16(Spec):
         nh = 4000 if tier == "quick" else 60000
         lin_summary = []
         for k in range(4):
-            resp, raw = core.ask(core.ORACLE, ["locks linhist %d %d" % (nh // 4, rng.randrange(1 << 30))])
+            resp, raw = core.ask(core.ORACLE_HOOKS, ["locks linhist %d %d" % (nh // 4, rng.randrange(1 << 30))])
             lin_summary.append(resp[0])
             for item in raw[0].split("\t")[1:]:
                 if item.startswith("!PROP C16 "):
@@ -130,7 +130,7 @@ class _C17(Spec):
         rounds = 1 if tier == "quick" else 5
         hung = 0
         for _ in range(rounds):
-            resp, raw = core.ask(core.ORACLE, ["locks stress"])
+            resp, raw = core.ask(core.ORACLE_HOOKS, ["locks stress"])
             cov["stress"] = resp[0]
             for item in raw[0].split("\t")[1:]:
                 if item.startswith("!PROP C17 "):
@@ -160,7 +160,7 @@ class _C17(Spec):
                     continue
                 sched = r[0].split(" ", 1)[1] if " " in r[0] else "-"
                 spec = "|".join("%s:%s" % k for k in prog)
-                rr, raw = core.ask(core.ORACLE, ["locks replay %s %s" % (spec, sched)])
+                rr, raw = core.ask(core.ORACLE_HOOKS, ["locks replay %s %s" % (spec, sched)])
                 replays += 1
                 got = False
                 for item in raw[0].split("\t")[1:]:
